@@ -121,6 +121,15 @@ def main():
         if i not in CHECKS:
             continue
         eng, tech, text, note, ref = CHECKS[i]
+        # The check's own Rule string (written next to the enumeration it
+        # describes and copied into the evidence on every run) is the
+        # authoritative statement of what is explored.
+        try:
+            rule = json.load(open(os.path.join(V, "evidence", i + ".json")))["coverage"]["rule"]
+            if rule:
+                text = rule
+        except (OSError, KeyError, ValueError):
+            pass
         checks.append({
             "property_id": i,
             "quick_cmd": "./check.sh %s quick" % i,
